@@ -24,6 +24,7 @@
     executed and NOT reported as a failure (C05_failure_recognised), all the statements are evaluated again on the
     ground-truth trace (C05_truth_*: its dependents must not start, no record, executes again).
 """
+import gc
 import json
 import os
 import random
@@ -44,7 +45,8 @@ META = {
     'lean_props': ['DoitModel.Props.C05'],
     'level': 'proof',
     'budget': {'quick': 40, 'thorough': 480},
-    'anchors': ['doit/runner.py::Runner.finish', 'doit/runner.py::Runner.run_all', 'doit/action.py::CmdAction.execute', 'doit/runner.py::Runner._handle_task_error', 'doit/runner.py::Runner.select_task',
+    'anchors': ['doit/task.py::Task.execute', 'doit/control.py::TaskControl._get_wild_tasks',
+                'doit/dependency.py::Dependency.close', 'doit/dependency.py::JsonDB.dump', 'doit/runner.py::Runner.finish', 'doit/runner.py::Runner.run_all', 'doit/action.py::CmdAction.execute', 'doit/runner.py::Runner._handle_task_error', 'doit/runner.py::Runner.select_task',
                 'doit/runner.py::Runner.process_task_result', 'doit/runner.py::Runner.run_tasks',
                 'doit/runner.py::Runner.execute_task', 'doit/runner.py::MRunner.get_next_job',
                 'doit/runner.py::MRunner.run_tasks', 'doit/runner.py::MRunner._process_result',
@@ -88,7 +90,7 @@ META = {
                   'pass), is fully processed, and that its nTasks-round fixed-point iterations are complete.',
     'rule': 'runlib DAG generator (3-8 tasks, all edge kinds, groups, shared deps, calc deliveries, up-to-date and '
             'ignored tasks) with failure-heavy oracle: outcome failed/error/saveerr x how return/raise/object, status '
-            'error (missing file_dep), runs cut short by a raising reporter / an interrupting teardown, cmd-action placements (exit status 1/2/126/127/200, death by SIGKILL/SIGTERM/SIGSEGV, list and shell form); backend json|dbm|sqlite3; warm-up run or not; runner serial | thread k=1..4 x '
+            'error (missing file_dep), multi-action tasks failing in action 2 of 3, wildcard task_dep on a group, values the DB cannot store (set/bytes), lazily invalid actions (int / 4-tuple), runs cut short by a raising reporter / an interrupting teardown, cmd-action placements (exit status 1/2/126/127/200, death by SIGKILL/SIGTERM/SIGSEGV, list and shell form); backend json|dbm|sqlite3; warm-up run or not; runner serial | thread k=1..4 x '
             'schedule policy | process k=2,3; non-trivial = at least one failure report and one dependency edge; '
             'distinct = distinct rendered case + backend + warm + schedule',
     'assumptions': ['actions touch only their own targets (granularity assumption of M1 for thread mode)',
@@ -107,7 +109,8 @@ LEAN_KEYS = ['C05_no_dependent_runs', 'C05_serial_stops', 'C05_continue_complete
 # the same statements with "fails" read as what the task's action DID (known to the harness: it wrote the action), not
 # as what doit reported: evaluated only when an executed task with a failing action was not reported as a failure
 TRUTH_LEAN_KEYS = ['C05_truth_no_dependent_runs', 'C05_truth_serial_stops', 'C05_truth_not_recorded']
-ALL_KEYS = LEAN_KEYS + ['C05_reexecuted', 'C05_failure_recognised'] + TRUTH_LEAN_KEYS + ['C05_truth_reexecuted']
+ALL_KEYS = LEAN_KEYS + ['C05_reexecuted', 'C05_failure_recognised'] + TRUTH_LEAN_KEYS + ['C05_truth_reexecuted',
+                        'C05_later_actions_skipped', 'C05_invalid_action_contained']
 BACKENDS = ('json', 'dbm', 'sqlite3')
 FIXED_MTIME = 1500000000
 
@@ -182,18 +185,62 @@ def prepare(case):
             continue
         if t['outcome'] == 'saveerr' and t['status'] == 'utd' and not case.get('always'):
             t['outcome'] = 'ok'
-        # base-model corner (reported, Model/Run.lean `deliver`): a calc task whose save_success fails still has
-        # task.values and delivers them; the model delivers only from executed-and-saved / up-to-date tasks
-        if t['outcome'] == 'saveerr' and t.get('calc_res') is not None:
+        # (M1 now models the delivery of a started-then-failed calc task: calcResFail, computed by runlib.expand for
+        # outcome 'saveerr' and for 'calc_first' tasks; only the values-cannot-be-stored shape stays without calc results)
+        if t['outcome'] == 'saveerr-values' and t.get('calc_res') is not None:
             t['calc_res'] = None
+        # a task whose failure comes AFTER its first action (failing command as last action, or action 2 of 3) has
+        # returned its values by then: doit delivers them to the tasks that have it as calc_dep
+        if t['outcome'] in ('failed', 'error') and (t.get('multi') or is_cmd_how(t.get('how'))):
+            t['calc_first'] = True
+        elif 'calc_first' in t:
+            del t['calc_first']
+        if t['outcome'] == 'saveerr-values':
+            if t['status'] == 'utd' and not case.get('always'):
+                t['outcome'] = 'ok'
+            t.setdefault('badval', 'set')
+    # wildcard task_dep `g:*` on a group: valid only if the group has sub-tasks none of which is an explicit dependency
+    for t in case['tasks']:
+        keep = []
+        for g in t.get('wild_dep') or []:
+            subs = [x['name'] for x in case['tasks'] if x['kind'] == 'sub' and x['group'] == g]
+            if t['kind'] == 'task' and subs and not any(x in t['task_dep'] or x in t['result_dep'] for x in subs) \
+                    and g not in keep:
+                keep.append(g)
+        t['wild_dep'] = keep
     ab = case.get('abort')
     if ab:
         if case.get('runner') == 'process' or ab.get('task') not in byname or byname[ab['task']]['kind'] == 'group':
             case['abort'] = None        # (process runner: teardowns run in the children; not planted there)
         elif ab['kind'] == 'teardown':
             byname[ab['task']]['teardown'] = True
-    case['model'] = runlib.expand(case)
+    case['model'] = _expand(case)
+    if any(t.get('wild_dep') for t in case['tasks']) and \
+            not runlib.is_acyclic(runlib.dynamic_edges(runlib._all_deliver(case['model'], case))):
+        for t in case['tasks']:
+            t['wild_dep'] = []
+        case['model'] = _expand(case)
     return case
+
+
+def _expand(case):
+    """runlib.expand + what it does not know: the wildcard task_deps (TaskControl.__init__ appends the matching task
+    names in definition order to task.task_dep after the explicit ones and the result_dep sources, before the implicit
+    target->file_dep producers, which then skip what is already there) and the model outcome of 'saveerr-values'"""
+    m = runlib.expand(case)
+    idx = runlib.task_index(case)
+    for i, t in enumerate(case['tasks']):
+        if t.get('wild_dep'):
+            k = len(t['task_dep']) + len(t['result_dep'])
+            wild = []
+            for g in t['wild_dep']:
+                wild += [idx[x['name']] for x in case['tasks'] if x['kind'] == 'sub' and x['group'] == g]
+            td = m['taskDep'][i]
+            m['taskDep'][i] = td[:k] + wild + [d for d in td[k:] if d not in wild]
+        if t['kind'] != 'group' and t['outcome'] == 'saveerr-values':
+            # what the property asks of a task that cannot be saved (and what the proposed repair makes doit do)
+            m['outcome'][i] = 'saveerr'
+    return m
 
 
 def stateless(case, t):
@@ -227,6 +274,22 @@ def gen_case(rng, runner='serial', **knobs):
                 v['how'] = rng.choice(CMD_HOWS[v['outcome']])
     if pol and c['runner'] == 'thread':
         c['policy'] = runlib.gen_policy(rng, c['nproc'])
+    # wave 4: multi-action tasks (failure in action 2 of 3), wildcard task_dep on a group, values that cannot be stored
+    for t in c['tasks']:
+        if t['kind'] != 'group' and rng.random() < 0.3:
+            t['multi'] = True
+    groups = [t['name'] for t in c['tasks'] if t['kind'] == 'group']
+    if groups and rng.random() < 0.5:
+        cands = [t for t in c['tasks'] if t['kind'] == 'task']
+        if cands:
+            rng.choice(cands)['wild_dep'] = [rng.choice(groups)]
+    if rng.random() < 0.05:
+        cands = [t for t in c['tasks'] if t['kind'] != 'group' and t['status'] == 'run' and t['outcome'] == 'ok'
+                 and not t['ignored']]
+        if cands:
+            v = rng.choice(cands)
+            v['outcome'] = 'saveerr-values'
+            v['badval'] = rng.choice(['set', 'bytes'])
     c['backend'] = backend or rng.choice(BACKENDS)
     c['warm'] = (rng.random() < 0.65) if warm is None else warm
     # runs that are cut short by an exception raised from the reporter (inside add_failure) or by a teardown action that
@@ -235,9 +298,15 @@ def gen_case(rng, runner='serial', **knobs):
     if c['runner'] != 'process' and r < 0.2:
         failing = [t for t in c['tasks'] if t['kind'] != 'group' and not t['ignored']
                    and (t['status'] == 'error' or (t['status'] == 'run' and t['outcome'] != 'ok'))]
-        if r < 0.1:
+        if r < 0.07:
             pool_ = failing or [t for t in c['tasks'] if t['kind'] != 'group']
             c['abort'] = {'kind': 'report', 'task': rng.choice(pool_)['name']}
+        elif r < 0.12:
+            # an action that turns out invalid only when the runner instantiates the task's actions (InvalidTask raised
+            # inside execute_task): doit aborts the run ("Execution aborted"), with and without --continue
+            runs = [t for t in c['tasks'] if t['kind'] != 'group' and t['status'] == 'run' and not t['ignored']]
+            pool_ = runs or [t for t in c['tasks'] if t['kind'] != 'group']
+            c['abort'] = {'kind': 'invalid', 'task': rng.choice(pool_)['name'], 'form': rng.choice(['int', 'tuple4'])}
         else:
             runs = [t for t in c['tasks'] if t['kind'] != 'group' and t['status'] == 'run' and not t['ignored']]
             pool_ = [t for t in failing if t['status'] == 'run'] if rng.random() < 0.6 else runs
@@ -253,42 +322,80 @@ def gen_case(rng, runner='serial', **knobs):
 # driving the real doit: three runs on one DB
 # ======================================================================================================
 
-def _make_action(rec, cell, n, t):
+BADVALS = {'set': {1, 2}, 'bytes': b'\x00\xff'}
+
+
+def _fail_now(outcome, how):
+    """the failing python element: returns / raises as the oracle says"""
+    from doit.exceptions import TaskFailed, TaskError
+    if outcome == 'failed':
+        if how == 'object':
+            return TaskFailed('oracle says failed')
+        return False
+    if how == 'object':
+        return TaskError('oracle says error')
+    raise RuntimeError('oracle says error')
+
+
+def _make_actions(rec, cell, n, t):
+    """the action list of task n.  Plain task: ONE python-action (start mark, checkpoint, targets, end mark, outcome) --
+    followed in run B by the failing cmd-action when the failure is realised by a command.  `multi` task: THREE actions;
+    action 1 = marks + every second target + values, action 2 = the element that fails in run B (python or command; a
+    plain value-returning action otherwise), action 3 = raw event act3 + the remaining targets + more values: it must
+    never run once action 2 failed."""
     targets = list(t['targets'])
     res = dict(t['calc_res']) if t.get('calc_res') is not None else {}
     gone = 'gone_' + fsname(t['name'])
+    multi = bool(t.get('multi'))
 
-    def action():
+    def oracle():
+        return ('ok', 'return') if cell['phase'] != 'B' else (t['outcome'], t.get('how', 'return'))
+
+    def first():
         w = rec[0].who()
         rec[0].ev(['start', n, w])
         rec[0].checkpoint(n)
-        for f in targets:
+        for f in (targets[0::2] if multi else targets):
             with open(f, 'w') as fh:
                 fh.write('made by %d\n' % n)
-        outcome, how = ('ok', 'return') if cell['phase'] != 'B' else (t['outcome'], t.get('how', 'return'))
-        cmd_fails = is_cmd_how(how) and outcome in ('failed', 'error')
-        if cmd_fails:
-            outcome = 'ok'          # the cmd-action that follows fails
+        outcome, how = oracle()
+        later_fails = outcome in ('failed', 'error') and (multi or is_cmd_how(how))
         if outcome == 'saveerr':
             os.unlink(gone)
         rec[0].ev(['end', n, w])
-        if outcome in ('ok', 'saveerr'):
-            val = {'v': n}
-            if not cmd_fails:
-                # (a task whose LATER action fails keeps the values of its earlier actions and would deliver them as
-                # calc results -- the reported `deliver` corner of the base model: nothing to deliver here)
-                val.update(res)
-            return val
-        from doit.exceptions import TaskFailed, TaskError
-        if outcome == 'failed':
-            if how == 'object':
-                return TaskFailed('oracle says failed')
-            return False
-        if how == 'object':
-            return TaskError('oracle says error')
-        raise RuntimeError('oracle says error')
-    action.__name__ = 'act_%d' % n
-    return action
+        if outcome in ('failed', 'error') and not later_fails:
+            return _fail_now(outcome, how)
+        val = {'v': n}
+        if outcome == 'saveerr-values':
+            val['unsavable'] = BADVALS[t.get('badval', 'set')]
+        if later_fails or not multi:
+            # (a task whose LATER action fails keeps the values of its earlier actions and delivers them as calc results:
+            # model calcResFail)
+            val.update(res)
+        return val
+    first.__name__ = 'act_%d' % n
+
+    def second():
+        outcome, how = oracle()
+        if outcome in ('failed', 'error'):
+            return _fail_now(outcome, how)
+        return {'w': n}
+    second.__name__ = 'act_%d_2' % n
+
+    def third():
+        rec[0].ev(['act3', n])
+        for f in targets[1::2]:
+            with open(f, 'w') as fh:
+                fh.write('made by %d\n' % n)
+        val = {'u': n}
+        val.update(res)
+        return val
+    third.__name__ = 'act_%d_3' % n
+
+    cmd_b = cell['phase'] == 'B' and is_cmd_how(t.get('how')) and t['outcome'] in ('failed', 'error')
+    if not multi:
+        return [first] + ([cmd_of(t['how'])] if cmd_b else [])
+    return [first, cmd_of(t['how']) if cmd_b else second, third]
 
 
 def _make_flag(cell, t):
@@ -335,10 +442,11 @@ def build_namespace(case, rec, cell):
                 if t['task_dep']:
                     yield {'basename': t['name'], 'name': None, 'task_dep': list(t['task_dep'])}
                 continue
-            d = {'actions': [_make_action(rec, cell, n, t)]}
-            if cell['phase'] == 'B' and is_cmd_how(t.get('how')) and t['outcome'] in ('failed', 'error'):
-                # run B only: the python-action (start/end marks, targets, values) is followed by the failing command
-                d['actions'].append(cmd_of(t['how']))
+            d = {'actions': _make_actions(rec, cell, n, t)}
+            ab = case.get('abort') or {}
+            if cell['phase'] == 'B' and ab.get('kind') == 'invalid' and ab.get('task') == t['name']:
+                # lazily invalid: found out only when the runner instantiates the actions of this task
+                d['actions'] = d['actions'] + [3 if ab.get('form') == 'int' else (d['actions'][0], [], {}, 1)]
             if t['kind'] == 'sub':
                 d['basename'] = t['group']
                 d['name'] = t['name'].split(':', 1)[1]
@@ -347,6 +455,8 @@ def build_namespace(case, rec, cell):
             for k in ('task_dep', 'setup', 'calc_dep', 'targets'):
                 if t[k]:
                     d[k] = list(t[k])
+            if t.get('wild_dep'):
+                d['task_dep'] = d.get('task_dep', []) + ['%s:*' % g for g in t['wild_dep']]
             fd = list(t['file_dep'])
             if stateless(case, t):
                 upt = [True]
@@ -366,7 +476,9 @@ def build_namespace(case, rec, cell):
                 d['teardown'] = [_make_teardown(rec, cell, n, t, case)]
             yield d
     return {'task_gen': task_gen,
-            'DOIT_CONFIG': {'dep_file': 'depdb', 'backend': case['backend'], 'verbosity': 0,
+            # absolute: a DB handle that doit leaks (close() dying half-way, as before 8fa62ea) and that is
+            # finalised later must not write into the scratch directory of a LATER case (dbm.dumb keeps relative names)
+            'DOIT_CONFIG': {'dep_file': os.path.abspath('depdb'), 'backend': case['backend'], 'verbosity': 0,
                             'reporter': PlantReporter}}
 
 
@@ -388,7 +500,7 @@ class _Stub(object):
 
 def _open_db(case):
     from doit.dependency import Dependency
-    return Dependency(_db_class(case['backend']), 'depdb')
+    return Dependency(_db_class(case['backend']), os.path.abspath('depdb'))
 
 
 def _doit(ns, argv):
@@ -553,8 +665,15 @@ def run_phases(case, watchdog=None, keep_raw=False):
             if runner == 'process':
                 runlib._reap_children()
             runlib._REC = None
+            gc.collect()        # finalise whatever the three runs leaked while their directory still exists
     stderr_text = err_b.getvalue() if err_b is not None else err.getvalue()
     obs['aborted'] = cell.get('aborted')
+    if (case.get('abort') or {}).get('kind') == 'invalid' and any(e[0] == 'runtime_error' for e in raw):
+        obs['aborted'] = 'invalid'
+    if any(t.get('outcome') == 'saveerr-values' for t in case['tasks']) and exc is None and code == 3 \
+            and 'not JSON serializable' in stderr_text:
+        obs['aborted'] = 'flush'      # the run died in dep_manager.close() (the defect repaired by 8fa62ea)
+    obs['act3'] = [e[1] for e in raw if e[0] == 'act3']
     obs.update({'trace': runlib.canonical_trace(raw, runner), 'exit': code,
                 'err': runlib.classify_err(exc, stderr_text),
                 'stderr': stderr_text[-600:], 'ms': round((time.time() - t0) * 1000, 2)})
@@ -623,7 +742,7 @@ def truth_trace(case, obs):
     tasks = those tasks (empty on a tree that recognises every failure: then trace' == trace)"""
     tr = obs['trace']
     started = set(e[1] for e in tr if e[0] == 'start')
-    kind = {'failed': 'failed', 'error': 'error', 'saveerr': 'deperr'}
+    kind = {'failed': 'failed', 'error': 'error', 'saveerr': 'deperr', 'saveerr-values': 'deperr'}
     wrong = []
     out = []
     for e in tr:
@@ -640,6 +759,36 @@ def py_monitors(case, obs):
     flags, wit = _py_monitors(case, obs)
     for k in ('C05_failure_recognised', 'C05_truth_reexecuted') + tuple(TRUTH_LEAN_KEYS):
         flags[k] = True
+    flags['C05_later_actions_skipped'] = True
+    flags['C05_invalid_action_contained'] = True
+    # a task stops at its first failing action: action 3 of a multi-action task never runs after action 2 failed
+    for n in obs.get('act3') or []:
+        t = case['tasks'][n]
+        if t['outcome'] in ('failed', 'error'):
+            flags['C05_later_actions_skipped'] = False
+            wit['later_actions_skipped'] = {'task': n, 'action_3_ran_after_action_2_failed': True}
+            break
+    # a task with a lazily invalid action is never executed nor reported successful, nothing that depends on it ever
+    # starts, and once the runner got to it the command does not exit 0
+    ab = case.get('abort') or {}
+    if ab.get('kind') == 'invalid':
+        bad_t = runlib.task_index(case).get(ab['task'])
+        tr0 = obs['trace']
+        fin0 = _finished(tr0)
+        utd0 = set(e[1] for e in tr0 if e[0] == 'skip_uptodate')
+        for e in tr0:
+            if e[0] in ('start', 'success') and e[1] == bad_t:
+                flags['C05_invalid_action_contained'] = False
+                wit['invalid_action_contained'] = {'invalid_task': bad_t, 'event': e}
+                break
+            if e[0] == 'start' and bad_t in dep_closure(case['model'], tr0, e[1], fin0, utd0):
+                flags['C05_invalid_action_contained'] = False
+                wit['invalid_action_contained'] = {'invalid_task': bad_t, 'dependent_started': e[1]}
+                break
+        reached = any(e[0] == 'runtime_error' or (e[0] == 'execute' and e[1] == bad_t) for e in tr0)
+        if reached and obs.get('exit') == 0 and flags['C05_invalid_action_contained']:
+            flags['C05_invalid_action_contained'] = False
+            wit['invalid_action_contained'] = {'invalid_task': bad_t, 'exit_code': 0}
     tt, wrong = truth_trace(case, obs)
     if wrong:
         flags['C05_failure_recognised'] = False
@@ -687,7 +836,7 @@ def _py_monitors(case, obs):
                 seen = True
     # (c)
     ex = obs['exit'] if obs['exit'] is not None else -1
-    if model['cont'] and 0 <= ex <= 2 and tr and tr[-1] == ['complete']:
+    if model['cont'] and 0 <= ex <= 2 and tr and tr[-1] == ['complete'] and not any(e[0] == 'runtime_error' for e in tr):
         closure = runlib.closure_of(case, tr)
         for t in closure:
             k = sum(1 for e in tr if e[0] in runlib.TERMINAL and e[1] == t)
@@ -735,6 +884,10 @@ def _py_monitors(case, obs):
 # Lean side, judging, shrinking
 # ======================================================================================================
 
+# reporter callbacks that are no events of M1 (runs in which they occur are monitors-only, see judge)
+NOT_M1_EVENTS = ('runtime_error', 'cleanup_error')
+
+
 def model_request(case, obs):
     req = runlib.model_request(case, obs, op='check')
     req['model'] = 'c05'
@@ -742,7 +895,13 @@ def model_request(case, obs):
         req['recorded'] = obs['recorded']
     tt, wrong = truth_trace(case, obs)
     if wrong:
-        req['truthTrace'] = tt
+        req['truthTrace'] = [e for e in tt if e[0] not in NOT_M1_EVENTS]
+    if any(e[0] == 'runtime_error' for e in req['trace']):
+        # "Execution aborted" (InvalidTask raised inside the runner): doit ends the run with exit code 2 although it did
+        # not process the rest; for (c) this is an aborted run (reported to the coordinator as a question, see
+        # findings/pending/C05-lazy-invalid-action-aborts.md), the Lean monitor is told so through the exit code
+        req['exit'] = 3
+    req['trace'] = [e for e in req['trace'] if e[0] not in NOT_M1_EVENTS]
     return req
 
 
@@ -767,8 +926,18 @@ def render(case):
     for t in case['tasks']:
         if t.get('outcome') == 'saveerr':
             extra.append('%s: its file_dep gone_%s is deleted while it executes (cannot be saved)' % (t['name'], fsname(t['name'])))
+    for t in case['tasks']:
+        if t.get('outcome') == 'saveerr-values':
+            extra.append('%s: its action returns a value of type %s among its values (cannot be stored in the DB)'
+                         % (t['name'], t.get('badval', 'set')))
+        if t.get('multi'):
+            extra.append('%s: three actions (marks+values, the outcome, more targets+values)' % t['name'])
+        if t.get('wild_dep'):
+            extra.append('%s: task_dep also %s' % (t['name'], ['%s:*' % g for g in t['wild_dep']]))
     ab = case.get('abort')
-    if ab and ab['kind'] == 'report':
+    if ab and ab['kind'] == 'invalid':
+        extra.append('the action list of %s ends with an invalid action (%s) in the failing run' % (ab['task'], ab.get('form')))
+    elif ab and ab['kind'] == 'report':
         extra.append('the reporter raises inside add_failure(%s) in the failing run' % ab['task'])
     elif ab:
         extra.append('the teardown action of %s raises %s in the failing run' % (ab['task'], ab.get('exc', 'KeyboardInterrupt')))
@@ -864,6 +1033,22 @@ def judge(case, obs, ans, st, shrink_left):
 
 def count_case(st, case, obs):
     runlib.count_case(st, case, obs)
+    if any(x for x in (case['model'].get('calcResFail') or [])):
+        st.count('fail_delivery_case(theorems under [NoFailDeliver] do not apply)')
+    for t in case['tasks']:
+        if t.get('multi'):
+            st.count('multi_action_task')
+            if t['outcome'] in ('failed', 'error') and any(e[0] == 'start' and e[1] == case['tasks'].index(t) for e in obs['trace']):
+                st.count('multi_action_task:failed_in_action_2')
+        if t.get('wild_dep'):
+            st.count('wildcard_task_dep')
+            subs = [i for i, x in enumerate(case['tasks']) if x['kind'] == 'sub' and x['group'] in t['wild_dep']]
+            if any(e[0] == 'failure' and e[1] in subs for e in obs['trace']):
+                st.count('wildcard_task_dep:sub_task_failed')
+        if t.get('outcome') == 'saveerr-values':
+            st.count('unsavable_values:%s' % t.get('badval'))
+    if obs.get('aborted') == 'flush':
+        st.count('aborted_run:db_flush_failed')
     if case.get('abort'):
         st.count('abort_plant:%s' % case['abort']['kind'])
         st.count('abort_plant_fired:%s' % obs.get('aborted'))
@@ -961,9 +1146,9 @@ def eval_batch(batch):
     for (c, o), a in zip(pairs, answers):
         st.case({'case': render(c).split('\n'), 'schedule': o.get('schedule')}, nontrivial(c, o))
         count_case(st, c, o)
-        if len(st.violations) >= 2:
+        if len(st.violations) - getattr(st, 'known_local', 0) >= 2:
             shrink_left = 0
-        if len(st.violations) >= 4:
+        if len(st.violations) - getattr(st, 'known_local', 0) >= 4:
             st.count('not_judged_after_4_violations_in_batch')
             continue
         shrink_left -= judge(c, o, a, st, shrink_left)
